@@ -66,3 +66,42 @@ func TestDebugRun(t *testing.T) {
 	b, _ := json.Marshal(res.Probes)
 	fmt.Println(string(b))
 }
+
+// TestDebugC12Cold runs N programs of the cold-cache variant (VERIF_DEBUG_COLD=N)
+// and prints what each reached.
+func TestDebugC12Cold(t *testing.T) {
+	var n int
+	fmt.Sscan(os.Getenv("VERIF_DEBUG_COLD"), &n)
+	if n == 0 {
+		t.Skip()
+	}
+	prop := Props["C12"]
+	classes := map[string]int{}
+	for i := 0; i < n; i++ {
+		seed := RunSeed(99, "C12", i)
+		r := NewRng(seed)
+		p := prop.Gen(r, "quick", i)
+		genC12ColdCache(r, p)
+		p.Schedule = nil
+		for i := 0; i < 2500; i++ {
+			p.Schedule = append(p.Schedule, r.Intn(1000))
+		}
+		p.Seed = seed
+		res := prop.Run(t, p)
+		c := "ok"
+		if res.Violation != nil {
+			c = res.Violation.Class
+		}
+		if res.Trouble != "" {
+			c = "trouble:" + res.Trouble
+		}
+		classes[c]++
+		if os.Getenv("VERIF_DEBUG_EVENTS") != "" {
+			for _, e := range res.Events {
+				fmt.Println(e)
+			}
+		}
+		fmt.Println(i, c, res.Probes)
+	}
+	fmt.Println(classes)
+}
